@@ -1094,8 +1094,11 @@ class ExecComp(ExplicitComponent):
 
         for inp, (ival, _) in self._indict.items():
             psize = ival.size
+            col_outs = out_names
 
             if has_diag_partials or psize == 1:
+                col_outs = []
+
                 # set a complex inpup value
                 ival += step
 
@@ -1105,14 +1108,19 @@ class ExecComp(ExplicitComponent):
                 for u in out_names:
                     if (u, inp) in partials:
                         subval, subval_is_scalar = vdict[u]
-                        if subval_is_scalar:
+                        if psize > 1 and subval.size == 1:
+                            # only array/array partials are diagonal. The partial of a size 1
+                            # output wrt an array input is a dense row, computed by column below.
+                            col_outs.append(u)
+                        elif subval_is_scalar:
                             partials[u, inp] = imag(subval * inv_stepsize)
                         else:
                             partials[u, inp] = imag(subval * inv_stepsize).ravel()
 
                 # restore old input value
                 ival -= step
-            else:
+
+            if psize > 1 and col_outs:
                 for i, idx in enumerate(array_idx_iter(ival.shape)):
                     # set a complex input value
                     ival[idx] += step
@@ -1120,7 +1128,7 @@ class ExecComp(ExplicitComponent):
                     # solve with complex input value
                     self._exec()
 
-                    for u in out_names:
+                    for u in col_outs:
                         if (u, inp) in partials:
                             # set the column in the Jacobian entry
                             subval, subval_is_scalar = vdict[u]
